@@ -92,3 +92,22 @@ pub fn once_visit(addr: usize) {
         }
     }
 }
+
+/// Monitor M-walk: a stop-the-world operation that walks the heap page by page (the heap
+/// snapshot) must not overlap with the concurrent sweeper, which rewrites dead objects of
+/// the same pages into free-space fillers with two separate stores (header, length).
+/// Called once per object visited by the walk; also a (thinned) scheduling point, because
+/// any OS schedule may preempt the walking thread between two objects.
+pub static WALK_OBJECTS: AtomicU64 = AtomicU64::new(0);
+
+pub fn heap_walk_object(old_page: bool) {
+    if !crate::is_active() {
+        return;
+    }
+    WALK_OBJECTS.fetch_add(1, Ordering::Relaxed);
+    if old_page && SWEEP_ACTIVE.load(Ordering::Relaxed) {
+        probe(5);
+        fail("M-walk", "the concurrent sweeper is still rewriting old-generation pages while a stop-the-world heap walk (heap snapshot) parses them");
+    }
+    crate::sched_point_hot();
+}
